@@ -7,7 +7,7 @@ import "sync/atomic"
 
 // Verification hooks, compiled only with the "verif" build tag. They report
 // which return site of the ring/segment and line/line case analyses decided
-// a call. With
+// a call, and bound the number of steps of the Line.ContainsLine walk. With
 // no sink installed a hook costs one atomic load and changes nothing.
 
 // VerifEvent describes one decided leaf call.
@@ -37,5 +37,18 @@ func verifTrace(fn, site string, ring Ring, seg Segment, allowOnEdge, result boo
 func verifTraceLine(site string, line, other *Line, result bool) {
 	if b, ok := verifSink.Load().(verifSinkBox); ok && b.f != nil {
 		b.f(&VerifEvent{Fn: "LCL", Site: site, Line: line, Other: other, Result: result})
+	}
+}
+
+// VerifStepBudgetExceeded is the panic value raised when the walk of
+// Line.ContainsLine takes more steps than a terminating walk can.
+type VerifStepBudgetExceeded struct{ Steps, N, M int }
+
+type verifSteps struct{ n int }
+
+func (v *verifSteps) step(n, m int) {
+	v.n++
+	if v.n > 2*(n+1)*(m+1)+16 {
+		panic(VerifStepBudgetExceeded{v.n, n, m})
 	}
 }
